@@ -21,7 +21,48 @@ CHECKS = {
    "exhaustive allocation-failure injection over every state x operation x request index (singly, in-call pairs, pairs across a follow-up)",
    "For every stored state of the explored graph and every operation in both forms, every allocator request the operation issues is refused in turn; the outcome must be Err(ReserveError) / the documented panic / a correctly absorbed failure, the target must hold its previous value (iterator-driven calls: a prefix of the items), all other handles unchanged, reference counts consistent, every follow-up operation must behave like the model and closing must leave no block.",
    "States up to the stated depth of the wide profile + seeds; refusal = null return with the old block intact."),
+ "C06": ("seqmc", "model_checking", "§8 C06",
+   "exhaustive sweep of ~700 boundary size values x entry points over every stored state of the explored graph",
+   "Every stored state of the explored graph x every live handle x try_reserve/reserve/try_shrink_to/shrink_to/extend(size_hint) x every value of a boundary family covering 0..=usize::MAX (powers of two +-2, the 56-bit limit, isize::MAX, usize::MAX, each minus len); plus with_capacity/try_with_capacity/collect(hint). Ok must satisfy the documented postcondition; Err / clean panic must leave the exact canonical pool unchanged (texts, capacities, pointers, reference counts); follow-ups and closing must be clean.",
+   "Sizes are a finite boundary family, not all 2^64 values. Requests above 1 MiB are refused by the shim instead of the OS."),
+ "C07": ("seqmc", "model_checking", "§8 C07",
+   "exhaustive index enumeration (0..=len+2) x operations x storage states, String as accept/panic reference, exact-state comparison for rejected calls",
+   "insert/insert_str/remove/truncate and their try_ forms at every byte index on every handle of every stored state, and on every text over the four UTF-8 widths up to a length bound in 7 storage states; panics exactly when String panics; a rejected call leaves the exact canonical state (incl. buffer bytes, capacities, reference counts) unchanged and allocates nothing; UTF-8 validity always.",
+   "Texts bounded in length; reference = std String under catch_unwind."),
+ "C08": ("seqmc", "model_checking", "§8 C08",
+   "explicit-state BFS (every clone-like transition) + length/clone-count/drop-order sweep with exact allocator request counting",
+   "Every clone, clone_from, assignment, From<&LeanString> and to_lean_string(LeanString) transition of the explored graph must issue zero allocator requests, share the pointer (heap/static) or be a bitwise copy (inline), bump the count by one and release exactly the one expected block; a sweep repeats this for lengths up to 1 MiB, 7 storage states, up to 64 clones and 3 drop orders.",
+   "The shim counts only the crate's own requests; lengths above 80 bytes are swept along single histories."),
+ "C09": ("seqmc", "model_checking", "§8 C09",
+   "explicit-state BFS of inline-only edit histories + exhaustive constructor input sweep with allocator request counting",
+   "All histories of in-place edits that stay within the inline limit (no request, storage stays inline); every constructor transition; constructor sweep over every text of the four widths up to the limit+1, every possible 16th byte, longer lengths, 10 constructors, every char, bools and every digit count of every integer type: <=16 bytes -> 0 requests and not heap, longer -> exactly one allocation with capacity == len.",
+   "64-bit inline limit (16)."),
+ "C10": ("seqmc", "model_checking", "§8 C10",
+   "explicit-state BFS over handles derived from writable, harness-owned 'static buffers compared with pristine copies after every step",
+   "All histories of the static profile (and the wide graph): from_static_str, clone, pop, truncate, clear never allocate and keep pointing at the caller's bytes; the first writing operation yields the model's text in own storage; the 'static bytes are compared byte for byte with pristine copies after every step.",
+   "Static texts of 16/17/40 bytes; bounded depth."),
+ "C11": ("seqmc", "model_checking", "§8 C11",
+   "explicit-state BFS with capacity/pointer/request-count oracles on every transition",
+   "capacity >= len for every handle after every step; with_capacity(n) >= n; successful reserve(n) gives len+n room and exclusive ownership; appends/inserts fitting the capacity reported just before on an exclusively owned target issue no allocator request and do not move the text.",
+   "Bounded as C01."),
+ "C12": ("seqmc", "model_checking", "§8 C12",
+   "explicit-state BFS (every growth event) + exhaustive (len, additional) sweep + instrumented push loops with a simulated worst-permitted growth bound",
+   "Every growth event of the explored graph and of a (length x additional x storage) sweep obeys len + len/2 <= new_cap <= max(len + len/2, len + additional); push-one-char loops of every width observe every prefix: allocator requests never exceed what the slowest permitted growth needs, bytes copied stay linear.",
+   "Sweep lengths <= 200, loops up to 4 MiB."),
+ "C13": ("seqmc", "model_checking", "§8 C13",
+   "explicit-state BFS + exhaustive m sweep (0..=cap+2 and boundary sizes) over every stored state",
+   "shrink_to_fit and shrink_to(m) for every m on every handle of every stored state, both forms: texts unchanged, capacity never grows, never below len, never below m unless it was, exactly max(len,m) or inline for heap targets whether shared or not, inline/static untouched, other handles untouched.",
+   "Bounded depth of states."),
+ "C17": ("seqmc", "model_checking", "§8 C17",
+   "explicit-state BFS with all-pairs comparison oracle per state + all-pairs representation zoo",
+   "In every state: all ordered pairs of handles and every handle against str/&str/String/Cow for ==, !=, cmp, partial_cmp, <, >=, fixed-key Hash, Display/Debug/padding, Borrow/AsRef/Deref, HashMap/BTreeMap lookups by &str; zoo of texts x 9 construction routes, all pairs.",
+   "Fixed-key SipHash as the hasher."),
+ "C18": ("seqmc", "fault_enumeration", "§8 C18",
+   "exhaustive panic-position injection into every callback over every stored state, String under the same callback as reference, shadow-heap leak accounting",
+   "For every stored state: retain/try_retain with 4 predicates panicking at every call index, extend and collect with 7 item kinds and two size-hint behaviours with next() panicking at every call index, to_lean_string/try_to_lean_string on a Display panicking after every piece count; target equals what String holds after the same panic, others unchanged, counts consistent, nothing leaked after closing.",
+   "States up to the stated depth + seeds."),
 }
+
 
 def main():
     checks = []
